@@ -405,6 +405,8 @@ impl RefState {
         // a stake is locked "through the end of the epoch numbered by the stake's end field"
         n.stakes.retain(|_, v| v.e_post_end >= epoch);
         n.block_txs.clear();
+        // tips are local to a block: what a block sealed without a proposer action did not pay out is not carried over
+        n.tips = 0;
         n
     }
 
